@@ -54,7 +54,7 @@ def main(tier, replay, t0):
                     viol.append(Violation("struct-" + rule, why[0] if why else "?",
                                           "emitted structs %s, expected %s (missing %s, extra %s, "
                                           "duplicated %s)" % (got, want, missing, extra, dup),
-                                          {"wgsl": c.wgsl, "options": x["opt"]}))
+                                          {"case_id": c.id, "wgsl": c.wgsl, "options": x["opt"]}))
             expected_total += len(want)
             if len(samples) < 3 and fam == "struct" and "roles" in spec.families:
                 samples.append({"case": c.id, "all_structs": list(spec.structs),
